@@ -67,6 +67,8 @@ def extras(rng):
             "noise": rng.choice([[], [], [], ["-v"], ["--pin-increments"], ["--tag-scope", "global"], ["--tag", "final"]]),
             "syntax": rng.choice(["toml", "cfg"]), "fail_rc": rng.choice([3, 3, 1, 255, 127, -9, -15, -13]),
             "remote_name": rng.choice(["origin", "origin", "origin", "my-fork", "github.com", "up_stream"]),
+            # the scripts live in a directory whose name needs quoting in a shell (the path is one program name, not a command line)
+            "hook_dir": rng.choice(["", "", "", "release tools/", "ci & co/", "tools;x/", "$(hooks)/"]),
             # started from inside another release's hook (or a CI job that exports them): the variables are already set
             "inherited_env": rng.choice([None, None, None, None, {"BUMPVER_OLD_VERSION": "0.9.0", "BUMPVER_NEW_VERSION": "0.9.1"},
                                          {"BUMPVER_NEW_VERSION": "7.7.7"}, {"BUMPVER_OLD_VERSION": ""}])}
@@ -77,11 +79,12 @@ def build_world(cfg):
     d = invoker.new_dir("c10")
     b = lambda v: "true" if v else "false"
     pre_line = post_line = ""
+    hd = cfg.get("hook_dir", "")
     if cfg["hook_src"] == "config":
         if cfg["pre"] != "absent":
-            pre_line = 'pre_commit_hook = "pre.sh"\n'
+            pre_line = 'pre_commit_hook = "%spre.sh"\n' % hd
         if cfg["post"] != "absent":
-            post_line = 'post_commit_hook = "post.sh"\n'
+            post_line = 'post_commit_hook = "%spost.sh"\n' % hd
     tagmsg = "rel {new_version}" if cfg["tagmsg"] == "set" else ""
     if cfg["syntax"] == "toml":
         cfgname = "bumpver.toml"
@@ -102,7 +105,7 @@ def build_world(cfg):
                     "True" if cfg["c_commit"] else "False", "True" if cfg["c_tag"] else "False",
                     "True" if cfg["c_push"] else "False")
     files = {cfgname: text.encode(), "a.txt": b"title\nver 1.2.3\nend\n", "src/b.txt": b"pep 1.2.3\n",
-             "other.txt": b"unrelated\n", "pre.sh": b"#!/bin/sh\nexit 0\n", "post.sh": b"#!/bin/sh\nexit 0\n"}
+             "other.txt": b"unrelated\n", hd + "pre.sh": b"#!/bin/sh\nexit 0\n", hd + "post.sh": b"#!/bin/sh\nexit 0\n"}
     invoker.write_tree(d, files)
     pers = cfg["pers"]
     if not cfg.get("novcs"):
@@ -127,9 +130,9 @@ def build_world(cfg):
             argv.append("--no-" + flag)
     if cfg["hook_src"] == "cli":
         if cfg["pre"] != "absent":
-            argv += ["--pre-commit-hook", "pre.sh"]
+            argv += ["--pre-commit-hook", hd + "pre.sh"]
         if cfg["post"] != "absent":
-            argv += ["--post-commit-hook", "post.sh"]
+            argv += ["--post-commit-hook", hd + "post.sh"]
     if cfg["allow_dirty"]:
         argv.append("--allow-dirty")
     if cfg["dry"]:
@@ -543,7 +546,8 @@ class RealSteps:
                 "inherited_env": rng.choice([None, None, {"BUMPVER_OLD_VERSION": "0.9.0", "BUMPVER_NEW_VERSION": "0.9.1"}]),
                 # a failing hook either exits non-zero or is killed (CI cancel, OOM killer)
                 "fail_how": rng.choice(["exit 7", "exit 7", "exit 255", "kill -KILL $$", "kill -TERM $$"]),
-                "tagmsg_empty": rng.random() < 0.4}     # tag_message = "" (documented): a lightweight tag
+                "tagmsg_empty": rng.random() < 0.4,     # tag_message = "" (documented): a lightweight tag
+                "hook_dir": rng.choice(["", "", "release tools/", "ci & co/"])}
 
     def run(self, case, ctx):
         from sim import realgit
@@ -559,14 +563,18 @@ class RealSteps:
             script = ("#!/bin/sh\necho \"%s $BUMPVER_OLD_VERSION $BUMPVER_NEW_VERSION $(git rev-parse HEAD) "
                       "$(git tag --list | wc -l) $(git status --porcelain | wc -l)\" >> '%s'\n%s\n"
                       % (which, log, ending))
-            path = os.path.join(d, which + ".sh")
+            hd = case.get("hook_dir", "")
+            path = os.path.join(d, hd + which + ".sh")
+            os.makedirs(os.path.dirname(path), exist_ok=True)
             with open(path, "w") as fobj:
                 fobj.write(script)
             os.chmod(path, os.stat(path).st_mode | stat.S_IXUSR)
+            if hd:
+                ctx.probe("hook_path_needs_shell_quoting")
             if case["hook_src"] == "config":
-                hook_lines += '%s_commit_hook = "%s.sh"\n' % (which, which)
+                hook_lines += '%s_commit_hook = "%s%s.sh"\n' % (which, hd, which)
             else:
-                argv += ["--%s-commit-hook" % which, which + ".sh"]
+                argv += ["--%s-commit-hook" % which, hd + which + ".sh"]
         if case.get("tagmsg_empty"):
             hook_lines += 'tag_message = ""\n'
         cfg = ('[bumpver]\ncurrent_version = "1.2.3"\nversion_pattern = "MAJOR.MINOR.PATCH"\n%scommit = true\ntag = %s\npush = %s\n\n'
